@@ -370,6 +370,30 @@ func RuleKEmitAll(c *core.Ctx) {
 					bad = append(bad, describeValue(p, iff.Cond))
 				}
 			}
+			// the write may be a local function (literal or helper of the package) that
+			// takes the element: it must write on each of its own success paths
+			for _, wr := range writes {
+				var helper *ssa.Function
+				if f := core.FuncValue(wr.Call.Value); f != nil && f.Blocks != nil && core.PkgPathOf(f) == pkgBeancount {
+					helper = f
+				} else if f := wr.Call.StaticCallee(); f != nil && f.Blocks != nil && core.PkgPathOf(f) == pkgBeancount {
+					helper = f
+				} else if ld, ok := wr.Call.Value.(*ssa.UnOp); ok {
+					if al, ok := ld.X.(*ssa.Alloc); ok {
+						for _, st := range core.AllStoresToCell(al) {
+							if f := core.FuncValue(st.Val); f != nil && f.Blocks != nil {
+								helper = f
+							}
+						}
+					}
+				}
+				if helper == nil {
+					continue
+				}
+				if why := returnsWithoutWriting(p, helper); why != "" {
+					bad = append(bad, "the helper "+core.FuncName(helper)+" that is given the element "+why)
+				}
+			}
 			if len(bad) == 0 {
 				c.Ob(rule, key, core.NearPos(writes[0]), core.FuncName(fn), core.Discharged, "the write of the loop's element depends on no test other than error tests")
 			} else {
@@ -455,6 +479,106 @@ func RuleKEmitAll(c *core.Ctx) {
 		}
 	}
 	c.Floor(rule, 6)
+}
+
+// returnsWithoutWriting: fn has a return that is not an error return and is
+// not dominated by a call that writes (a call with an io.Writer or a printer
+// as receiver or argument).
+func returnsWithoutWriting(p *core.Prog, fn *ssa.Function) string {
+	writeLike := func(call ssa.CallInstruction) bool {
+		cc := call.Common()
+		vals := append([]ssa.Value{}, cc.Args...)
+		if cc.IsInvoke() {
+			vals = append(vals, cc.Value)
+		}
+		for _, a := range vals {
+			t := a.Type()
+			if mi, ok := a.(*ssa.MakeInterface); ok {
+				t = mi.X.Type()
+			}
+			if implementsWriter(t) {
+				return true
+			}
+			if pt, ok := t.Underlying().(*types.Pointer); ok {
+				if n, ok := types.Unalias(pt.Elem()).(*types.Named); ok && n.Obj().Name() == "Printer" && n.Obj().Pkg() != nil && strings.HasPrefix(n.Obj().Pkg().Path(), core.Module) {
+					return true
+				}
+			}
+		}
+		return false
+	}
+	var writeBlocks []*ssa.BasicBlock
+	core.EachInstr(fn, func(ins ssa.Instruction) {
+		if call, ok := ins.(ssa.CallInstruction); ok && writeLike(call) {
+			writeBlocks = append(writeBlocks, ins.Block())
+		}
+	})
+	if len(writeBlocks) == 0 {
+		return ""
+	}
+	// only a helper that writes the very value it is given is "the writer of the
+	// element"; one that derives other things to write from it (the opens of the
+	// valuation accounts a transaction uses) writes them as needed
+	writesParam := false
+	core.EachInstr(fn, func(ins ssa.Instruction) {
+		call, ok := ins.(ssa.CallInstruction)
+		if !ok || !writeLike(call) {
+			return
+		}
+		for _, a := range call.Common().Args {
+			v := core.Strip(a)
+			if mi, ok := a.(*ssa.MakeInterface); ok {
+				v = core.Strip(mi.X)
+			}
+			if _, isPrm := v.(*ssa.Parameter); isPrm && !implementsWriter(v.Type()) {
+				if pt, ok := v.Type().Underlying().(*types.Pointer); !ok || !isPrinterType(pt) {
+					writesParam = true
+				}
+			}
+		}
+	})
+	if !writesParam {
+		return ""
+	}
+	for _, b := range fn.Blocks {
+		ret, ok := b.Instrs[len(b.Instrs)-1].(*ssa.Return)
+		if !ok {
+			continue
+		}
+		if len(b.Preds) == 1 {
+			if iff, ok := b.Preds[0].Instrs[len(b.Preds[0].Instrs)-1].(*ssa.If); ok && isErrTest(iff.Cond) && b.Preds[0].Succs[0] == b {
+				continue
+			}
+		}
+		dominated := false
+		for _, wb := range writeBlocks {
+			if wb == b || wb.Dominates(b) {
+				dominated = true
+			}
+		}
+		if !dominated {
+			return "can return at " + p.Pos(ret.Pos()) + " without having written it"
+		}
+	}
+	return ""
+}
+
+func isPrinterType(pt *types.Pointer) bool {
+	n, ok := types.Unalias(pt.Elem()).(*types.Named)
+	return ok && n.Obj().Name() == "Printer"
+}
+
+func implementsWriter(t types.Type) bool {
+	ms := types.NewMethodSet(t)
+	for i := 0; i < ms.Len(); i++ {
+		if f, ok := ms.At(i).Obj().(*types.Func); ok && f.Name() == "Write" {
+			sig := f.Type().(*types.Signature)
+			if sig.Params().Len() == 1 && sig.Results().Len() == 2 {
+				return true
+			}
+		}
+	}
+	return false
 }
 
 // successReturnIndex numbers the non-error returns of fn in block order (a
